@@ -83,8 +83,19 @@ func manyKeys(prefix string, n int) map[string]string {
 }
 
 // Meta returns a fresh copy of shape i (the code under test mutates maps it is given).
+// Fat selects metadata of about 1.2 MB (20 values of 60000 bytes): an item that alone makes a partition snapshot larger
+// than a mebibyte.
+const Fat = 900001
+
 func Meta(i int) map[string]string {
 	var m map[string]string
+	if i == Fat {
+		fat := make(map[string]string, 20)
+		for k := 0; k < 20; k++ {
+			fat[fmt.Sprintf("fat%02d", k)] = strings.Repeat(string(rune('a'+k)), 60000)
+		}
+		return fat
+	}
 	if i == ManyKeysA {
 		return manyKeys("a", 40000)
 	} else if i == ManyKeysB {
@@ -134,7 +145,13 @@ func MetaString(m map[string]string) string {
 		if i > 0 {
 			b.WriteString(",")
 		}
-		fmt.Fprintf(&b, "%q:%q", k, m[k])
+		if v := m[k]; len(v) > 200 {
+			// long values are rendered by length and digest
+			h := sha256.Sum256([]byte(v))
+			fmt.Fprintf(&b, "%q:<%d bytes %x>", k, len(v), h[:4])
+		} else {
+			fmt.Fprintf(&b, "%q:%q", k, v)
+		}
 	}
 	b.WriteString("}")
 	return b.String()
